@@ -1546,12 +1546,30 @@ var ruleScopeS10 = &Rule{
 			}
 			// the store may depend only on the header expression being there (a length test) and having a location
 			// (IsInitialLoc), and on the loop over the names it sits in
-			checkGates := func(g *ssa.Function, b *ssa.BasicBlock) {
+			var checkGatesD func(g *ssa.Function, b *ssa.BasicBlock, depth int)
+			checkGates := func(g *ssa.Function, b *ssa.BasicBlock) { checkGatesD(g, b, 0) }
+			checkGatesD = func(g *ssa.Function, b *ssa.BasicBlock, depth int) {
 				loops := allLoops(g)
 				for _, e0 := range dominatingEdges(b) {
 					e := stripNot(e0)
 					okCond := false
 					switch x := e.cond.(type) {
+					case *ssa.Phi:
+						// a flag computed once in front of the loop (`hasHead := false; if len(...) > 0 { if !loc.IsInitialLoc() { …; hasHead = true } }`):
+						// it is true only where it was set, so the blocks that set it stand for the gate
+						if depth < 2 {
+							okCond = true
+							for i, pe := range x.Edges {
+								k, isC := pe.(*ssa.Const)
+								if !isC || k.Value == nil || k.Value.Kind() != constant.Bool {
+									okCond = false
+									break
+								}
+								if constant.BoolVal(k.Value) && i < len(x.Block().Preds) {
+									checkGatesD(g, x.Block().Preds[i], depth+1)
+								}
+							}
+						}
 					case *ssa.Call:
 						if h := x.Call.StaticCallee(); h != nil && h.Name() == "IsInitialLoc" {
 							okCond = true
